@@ -46,10 +46,13 @@ def _strip_comments(src: str) -> str:
 def theorems_in(path):
     """[(name, first_line, last_line)] of `theorem` declarations in a Lean file (1-based lines)."""
     with open(path, encoding="utf-8") as fh:
-        lines = fh.read().split("\n")
+        raw = fh.read()
+    lines = raw.split("\n")
+    # block comments are blanked (line count kept) so that prose starting with `namespace`/`theorem` is not a declaration
+    code = re.sub(r"/-.*?-/", lambda m: "\n" * m.group(0).count("\n"), raw, flags=re.S).split("\n")
     starts = []
     ns = []
-    for i, ln in enumerate(lines, 1):
+    for i, ln in enumerate(code, 1):
         m = re.match(r"^namespace\s+(\S+)", ln)
         if m:
             ns.append(m.group(1))
